@@ -157,6 +157,8 @@ class Check:
         }
         os.makedirs(os.path.join(VERIF, "evidence"), exist_ok=True)
         p = os.path.join(VERIF, "evidence", "%s.json" % self.pid)
+        if os.environ.get("S3SV_NO_EVIDENCE"):
+            p = os.path.join(VERIF, ".cache", "scratch-evidence-%s.json" % self.pid)
         tmp = p + ".tmp%d" % os.getpid()
         with open(tmp, "w") as fh:
             json.dump(ev, fh, indent=1, default=str)
